@@ -125,6 +125,40 @@ fn rerun_job(ctx: &Ctx, st: &mut Stats) {
     }
 }
 
+/// WITHOUT -n the board size is the documented default (4) — also when OUTPUT is a file whose name
+/// consists of digits: the formula of the 4-queens problem is written to that file, nothing to stdout.
+fn default_size_job(ctx: &Ctx, st: &mut Stats) {
+    let want = match generate(ctx, 4, false, "default-ref") {
+        Ok(t) => t,
+        Err(_) => return,
+    };
+    let same = |a: &str, b: &str| a == b || matches!((refsyn::parse_text(a), refsyn::parse_text(b)), (Ok(x), Ok(y)) if x == y);
+    for (i, out_name) in [None, Some("6"), Some("12"), Some("2024"), Some("0"), Some("65536"), Some("out.txt"), Some("8x8")].iter().enumerate() {
+        let dir = ctx.fresh_dir(&format!("c15-default-{}", i));
+        let _ = std::fs::create_dir_all(&dir);
+        let args: Vec<String> = out_name.iter().map(|s| s.to_string()).collect();
+        st.evals += 1;
+        let out = cli::run(&ctx.bin("n_queens_gen"), &args, None, Some(&dir), None, Duration::from_secs(60));
+        let case = || json!({"kind": "default-size", "output": out_name});
+        if out.timed_out {
+            st.bump("watchdog(inconclusive case)");
+        } else if !out.ok() {
+            st.violate("c15.run", "C15:default-size:generator-failed".into(), format!("n_queens_gen {:?} (no -n) failed: {}", args, out.status_string()), case());
+        } else {
+            let (held, so) = match out_name {
+                Some(n) => (std::fs::read_to_string(dir.join(n)).unwrap_or_default(), out.stdout_str()),
+                None => (out.stdout_str(), String::new()),
+            };
+            if !same(&held, &want) || (out_name.is_some() && refsyn::parse_text(so.trim()).is_ok() && !so.trim().is_empty()) {
+                st.violate("c15.run", "C15:default-size:another-formula".into(), format!("n_queens_gen {:?} (no -n: the default size is 4): {} holds {} bytes (first line {:?}), stdout {} bytes; the 4-queens formula has {} bytes", args, out_name.map(|n| format!("the file `{}`", n)).unwrap_or("stdout".into()), held.len(), held.lines().next().unwrap_or(""), so.len(), want.len()), case());
+            } else {
+                st.bump("runs_without_a_size_option");
+            }
+        }
+        let _ = std::fs::remove_dir_all(&dir);
+    }
+}
+
 fn var_index(p: &Problem, k: usize) -> Option<usize> {
     p.index.get(&format!("v_{}", k)).copied()
 }
@@ -547,6 +581,7 @@ pub fn run(ctx: &Ctx) -> (Stats, Spec) {
     });
     st.merge(crate::report::merge_all(parts));
     rerun_job(ctx, &mut st);
+    default_size_job(ctx, &mut st);
     // a full output device: no formula can be stored, so the generator must not report success
     if std::path::Path::new("/dev/full").exists() {
         for n in ["1", "4", "6", "30"] {
